@@ -18,7 +18,7 @@ from mc.report import Report
 LEVEL = "exploration"
 RULE = ("full product: class {BaseSamples,Samples,SMCSamples} x source ns x target ns (all 9 ordered pairs) x source dtype "
         "{float32,float64} x requested dtype {None,'float32','float64', native object of the target} x field subset "
-        "{none, all, L+pi, q only} x route {to_namespace, to_numpy, from_samples(xp=), sample_posterior(xp=)}; dtype helpers "
+        "{none, all, all with a given evidence, L+pi, q only} x route {to_namespace, to_numpy, from_samples(xp=), sample_posterior(xp=)}; dtype helpers "
         "over 14 spellings x 3 namespaces; sampler populations (initial, every stored, restored, final) for requested dtype x "
         "namespace x sampler (fresh, resumed, resumed by a sampler asked for the other precision - from the first and from the last checkpoint -, and the population handed back by the restore call) x {wide prior, tight prior whose rejected proposal draws make the initial population a concatenation of several batches}; JAX sources with JAX's default 64-bit-disabled configuration (fresh interpreter) into torch/numpy with a float64 request; zuko/flowjax outputs into Samples(xp=ns). non-trivial = cross-namespace or dtype-changing case")
 ASSUMPTIONS = [
@@ -27,7 +27,9 @@ ASSUMPTIONS = [
 ]
 
 NS = ("numpy", "torch", "jax")
-FIELDSETS = {"none": (0, 0, 0), "all": (1, 1, 1), "L+pi": (1, 1, 0), "q": (0, 0, 1)}
+FIELDSETS = {"none": (0, 0, 0), "all": (1, 1, 1), "L+pi": (1, 1, 0), "q": (0, 0, 1),
+             # a weighted set that carries an evidence other than the one derivable from its own weights (slice, concatenation, explicit argument)
+             "all+given-evidence": (1, 1, 1)}
 
 
 def width(a):
@@ -52,7 +54,7 @@ def make(cls, ns, dt, fs):
     C = getattr(S, cls)
     if cls == "SMCSamples":
         kw.update(beta=0.25, log_evidence=-2.5, log_evidence_error=0.5)
-    if cls == "Samples" and not all(f):
+    if cls == "Samples" and (not all(f) or fs == "all+given-evidence"):
         kw.update(log_evidence=-2.5, log_evidence_error=0.5)
     return C(x=xp.asarray(x), xp=xp, dtype=get_dtype(ns, dt), parameters=["a", "b"], **kw)
 
